@@ -286,8 +286,16 @@ def get_particle_array_rigid_body(constants=None, **props):
               }
     if constants:
         consts.update(constants)
+    if body_id is not None:
+        # Pass the ids along with the other properties: the constructor
+        # aligns the particles by tag, values added afterwards would land
+        # on the wrong particles.
+        props['body_id'] = body_id
     pa = get_particle_array(constants=consts, additional_props=extra_props,
                             **props)
+    if body_id is not None:
+        body_id = pa.get('body_id', only_real_particles=False).copy()
+        pa.remove_property('body_id')
     pa.add_property('body_id', type='int', data=body_id)
     pa.set_output_arrays(['x', 'y', 'z', 'u', 'v', 'w', 'rho', 'h', 'm',
                           'p', 'pid', 'au', 'av', 'aw', 'tag', 'gid', 'V',
